@@ -23,17 +23,28 @@
 (*   the replay reads TLC's exact values.                                  *)
 (* Part "mix"     multitask wrappers: LMC mixes the latent q(f) with the   *)
 (*   coefficients, the independent wrapper stacks tasks (interleaved       *)
-(*   point-major layout), for all tasks or one task per input.             *)
+(*   point-major layout), for all tasks or one task per input, and         *)
+(*   kl_divergence() is the sum of the per-latent KL - for EVERY position  *)
+(*   of the latent / task dimension in the batch shape of the wrapped      *)
+(*   strategy (latent_dim / task_dim = -1, -2, -3, the latter also given   *)
+(*   as a non-negative index), with batch dimensions in front of and       *)
+(*   behind it whose sizes are equal to (a reduction over the wrong        *)
+(*   dimension keeps the shape) or different from the number of latents.   *)
+(*   The code-shaped expressions are written with strides / permutations   *)
+(*   as torch executes sum(dim) and permute; constant Variant selects the  *)
+(*   dimension they use; TLC accepts the named dimension and must reject   *)
+(*   "the last dimension" and the inverse mask permutation.                *)
 (* Part "lattice" strategy x distribution x batch-shape cells and, per     *)
 (*   strategy, where the code adds jitter ("the prior the model evaluates  *)
-(*   to").                                                                 *)
+(*   to"); for the multitask wrappers also the batch layout (position of   *)
+(*   the latent / task dimension x sizes of the other dimensions).         *)
 (* Part "hist"    training-mode call protocol: memoised q(u) / p(u) are    *)
 (*   dropped at every training-mode call, so an output always reflects the *)
 (*   current parameters.  ClearOnTrainCall = FALSE is the broken variant.  *)
 (***************************************************************************)
 EXTENDS LinAlg, TLC
 
-CONSTANTS Part, Instances, MaxHist, ClearOnTrainCall
+CONSTANTS Part, Instances, MaxHist, ClearOnTrainCall, Variant
 
 VARIABLES c, out
 vars == <<c, out>>
@@ -195,40 +206,118 @@ PriorOK     == Part = "qf" => /\ out.pr.mean = out.mx /\ out.pr.cov = out.Kxx
                               /\ out.pr.kl.detS = out.pr.kl.detK
 
 \* ============================== part "mix": multitask wrappers ================================
-\* instance: [id, mean : Q x N integers, cov : Q matrices N x N, A : Q x T integers, ti : N task indices in 1..T (LMC),
-\*            tj : N task indices in 1..Q (independent tasks)]
-\* denotation: f_t(x) = sum_q A[q][t] g_q(x), latents independent; layout of the multitask output: index (n, t) -> (n-1) T + t
-MixEval(i) ==
-  LET Q == Len(i.mean)  N == Len(i.mean[1])  T == Len(i.A[1])
-      nn(r) == ((r - 1) \div T) + 1     tt(r) == ((r - 1) % T) + 1
-      ISum(f(_)) == LET RECURSIVE S(_)
-                        S(q) == IF q = 0 THEN 0 ELSE f(q) + S(q - 1)
-                    IN S(Q)
-      \* denotation
-      lmean == [n \in 1..N |-> [t \in 1..T |-> ISum(LAMBDA q : i.A[q][t] * i.mean[q][n])]]
-      lcov  == [r \in 1..(N * T) |-> [s \in 1..(N * T) |->
-                  ISum(LAMBDA q : i.A[q][tt(r)] * i.A[q][tt(s)] * i.cov[q][nn(r)][nn(s)])]]
-      \* code-shaped: sum over latents of the Kronecker product of the latent covariance with a_q a_q^T
-      kron(q) == [r \in 1..(N * T) |-> [s \in 1..(N * T) |-> i.cov[q][nn(r)][nn(s)] * (i.A[q][tt(r)] * i.A[q][tt(s)])]]
-      ckron == [r \in 1..(N * T) |-> [s \in 1..(N * T) |-> ISum(LAMBDA q : kron(q)[r][s])]]
-      \* one task per input
-      smean == [n \in 1..N |-> ISum(LAMBDA q : i.A[q][i.ti[n]] * i.mean[q][n])]
-      scov  == [n \in 1..N |-> [e \in 1..N |-> ISum(LAMBDA q : i.A[q][i.ti[n]] * i.A[q][i.ti[e]] * i.cov[q][n][e])]]
-      \* independent tasks (Q = number of tasks): task t is latent t
-      imean == [n \in 1..N |-> [t \in 1..Q |-> i.mean[t][n]]]
-      icov  == [r \in 1..(N * Q) |-> [s \in 1..(N * Q) |->
-                  LET tr == ((r - 1) % Q) + 1  ts == ((s - 1) % Q) + 1  nr == ((r - 1) \div Q) + 1  ns == ((s - 1) \div Q) + 1
-                  IN IF tr = ts THEN i.cov[tr][nr][ns] ELSE 0]]
-      ismean == [n \in 1..N |-> i.mean[i.tj[n]][n]]
-      iscov  == [n \in 1..N |-> [e \in 1..N |-> IF i.tj[n] = i.tj[e] THEN i.cov[i.tj[n]][n][e] ELSE 0]]
-  IN [id |-> i.id, lmean |-> lmean, lcov |-> lcov, ckron |-> ckron, smean |-> smean, scov |-> scov,
-      imean |-> imean, icov |-> icov, ismean |-> ismean, iscov |-> iscov,
-      \* selecting one task per input is selecting entries of the all-tasks output
-      selOK |-> \A n \in 1..N : \A e \in 1..N :
-                  /\ scov[n][e] = lcov[(n - 1) * T + i.ti[n]][(e - 1) * T + i.ti[e]]
-                  /\ smean[n] = lmean[n][i.ti[n]]]
+\* The base strategy works on a batch of GPs of batch shape `shape` (1 to 3 dimensions); ONE of these dimensions holds the
+\* latent functions (LMC: argument latent_dim, negative) / the tasks (independent wrapper: argument task_dim, negative or
+\* non-negative); the dimensions in front of it and behind it are ordinary batch dimensions that the wrapper must leave alone.
+\* Every tensor is stored flat, row-major over its shape (position 1-based), as torch stores a contiguous tensor.
+\* instance: [id, shape, ld : the latent dimension as LMC is given it (negative), td : the same dimension as the independent
+\*            wrapper is given it (negative or non-negative), mean : B x N integers (B = product of shape), cov : B matrices N x N,
+\*            A : B x T integers (lmc_coefficients has shape shape x T), um : B x k integers (the stub's q(u) = N(um, I) against
+\*            p(u) = N(0, I): twice its KL is |um|^2), ti : N task indices in 1..T (LMC), tj : N task indices in 1..Q (independent)]
+\* denotation: for every entry b of the remaining batch dimensions, f_t(x) = sum_q A[b, q][t] g_{b, q}(x) with independent
+\*   latents, KL = sum_q KL_{b, q}; layout of the multitask output: index (n, t) -> (n-1) T + t
+RECURSIVE ProdS(_)
+ProdS(s) == IF s = <<>> THEN 1 ELSE Head(s) * ProdS(Tail(s))
+AxisOf(s, d)   == IF d < 0 THEN Len(s) + d + 1 ELSE d + 1                \* python dimension index -> position in 1..Len(s)
+DropAt(s, a)   == SubSeq(s, 1, a - 1) \o SubSeq(s, a + 1, Len(s))
+PutAt(s, a, v) == SubSeq(s, 1, a - 1) \o <<v>> \o SubSeq(s, a, Len(s))
+RECURSIVE FlatIx(_, _)
+FlatIx(s, ix)  == IF s = <<>> THEN 1 ELSE (Head(ix) - 1) * ProdS(Tail(s)) + FlatIx(Tail(s), Tail(ix))
+RECURSIVE MultiIx(_, _)
+MultiIx(s, f)  == IF s = <<>> THEN <<>>
+                  ELSE <<((f - 1) \div ProdS(Tail(s))) + 1>> \o MultiIx(Tail(s), ((f - 1) % ProdS(Tail(s))) + 1)
+ISumTo(m, f(_)) == LET RECURSIVE S(_)
+                       S(q) == IF q = 0 THEN 0 ELSE f(q) + S(q - 1)
+                   IN S(m)
 
-MixOK == Part = "mix" => out.ckron = out.lcov /\ out.selOK
+\* ---- code-shaped tensor operations on [shape, vals] (integer entries), written with strides as the library executes them
+\* t.sum(dim = d)
+SumDim(t, d) ==
+  LET a == AxisOf(t.shape, d)  Qa == t.shape[a]  S == ProdS(SubSeq(t.shape, a + 1, Len(t.shape)))  os == DropAt(t.shape, a)
+  IN [shape |-> os,
+      vals  |-> [o \in 1..ProdS(os) |-> LET p == (o - 1) \div S  r == (o - 1) % S
+                                        IN ISumTo(Qa, LAMBDA q : t.vals[p * Qa * S + (q - 1) * S + r + 1])]]
+\* t.permute(perm), perm a sequence of python positions (0-based)
+Permute(t, perm) ==
+  LET n  == Len(t.shape)
+      os == [k \in 1..n |-> t.shape[perm[k] + 1]]
+  IN [shape |-> os,
+      vals  |-> [f \in 1..ProdS(os) |-> LET jx == MultiIx(os, f)
+                                            ix == [d \in 1..n |-> jx[CHOOSE k \in 1..n : perm[k] + 1 = d]]
+                                        IN t.vals[FlatIx(t.shape, ix)]]]
+Range0(lo, hi) == [k \in 1..(IF hi > lo THEN hi - lo ELSE 0) |-> lo + k - 1]          \* python range(lo, hi)
+
+\* Variant: which dimension the code-shaped expressions use.  "named" / "to" is the code as the property needs it;
+\*   lmckl  = "last": LMCVariationalStrategy.kl_divergence sums over dim -1 instead of latent_dim
+\*   imtkl  = "last": IndependentMultitaskVariationalStrategy.kl_divergence sums over dim -1 instead of task_dim
+\*   imtmask = "from": the one-hot task mask (..., N, tasks) is permuted with the permutation that moves dimension task_dim to
+\*             the end instead of the one that moves the last dimension to task_dim (the two coincide iff task_dim is the last
+\*             batch dimension)
+\* TLC must reject each of the three deviations on instances whose latent dimension is not the last one.
+MixEval(i) ==
+  LET shape == i.shape   nb == Len(i.shape)
+      ax == AxisOf(shape, i.ld)   Q == shape[ax]   oshape == DropAt(shape, ax)   OB == ProdS(oshape)   B == ProdS(shape)
+      N == Len(i.mean[1])  T == Len(i.A[1])
+      nn(r) == ((r - 1) \div T) + 1     tt(r) == ((r - 1) % T) + 1
+      src(o, q) == FlatIx(shape, PutAt(MultiIx(oshape, o), ax, q))          \* where latent q of output entry o lives
+      QSum(f(_)) == ISumTo(Q, f)
+      \* ---------- denotation
+      lmean == [o \in 1..OB |-> [n \in 1..N |-> [t \in 1..T |-> QSum(LAMBDA q : i.A[src(o, q)][t] * i.mean[src(o, q)][n])]]]
+      lcov  == [o \in 1..OB |-> [r \in 1..(N * T) |-> [s \in 1..(N * T) |->
+                  QSum(LAMBDA q : i.A[src(o, q)][tt(r)] * i.A[src(o, q)][tt(s)] * i.cov[src(o, q)][nn(r)][nn(s)])]]]
+      smean == [o \in 1..OB |-> [n \in 1..N |-> QSum(LAMBDA q : i.A[src(o, q)][i.ti[n]] * i.mean[src(o, q)][n])]]
+      scov  == [o \in 1..OB |-> [n \in 1..N |-> [e \in 1..N |->
+                  QSum(LAMBDA q : i.A[src(o, q)][i.ti[n]] * i.A[src(o, q)][i.ti[e]] * i.cov[src(o, q)][n][e])]]]
+      kl2base == [f \in 1..B |-> ISumTo(Len(i.um[f]), LAMBDA e : i.um[f][e] * i.um[f][e])]       \* twice the KL of batch entry f
+      kl2   == [o \in 1..OB |-> QSum(LAMBDA q : kl2base[src(o, q)])]
+      \* independent tasks (Q = number of tasks): task t is latent t
+      imean == [o \in 1..OB |-> [n \in 1..N |-> [t \in 1..Q |-> i.mean[src(o, t)][n]]]]
+      icov  == [o \in 1..OB |-> [r \in 1..(N * Q) |-> [s \in 1..(N * Q) |->
+                  LET tr == ((r - 1) % Q) + 1  ts == ((s - 1) % Q) + 1  nr == ((r - 1) \div Q) + 1  ns == ((s - 1) \div Q) + 1
+                  IN IF tr = ts THEN i.cov[src(o, tr)][nr][ns] ELSE 0]]]
+      ismean == [o \in 1..OB |-> [n \in 1..N |-> i.mean[src(o, i.tj[n])][n]]]
+      iscov  == [o \in 1..OB |-> [n \in 1..N |-> [e \in 1..N |-> IF i.tj[n] = i.tj[e] THEN i.cov[src(o, i.tj[n])][n][e] ELSE 0]]]
+      \* ---------- code-shaped (LMCVariationalStrategy.__call__ / kl_divergence)
+      Ten(f(_)) == [shape |-> shape, vals |-> [b \in 1..B |-> f(b)]]
+      \* mean: latent mean and coefficients are permuted so that the latent dimension is contracted by a matmul = a sum over it
+      cmean == [o \in 1..OB |-> [n \in 1..N |-> [t \in 1..T |-> SumDim(Ten(LAMBDA b : i.mean[b][n] * i.A[b][t]), i.ld).vals[o]]]]
+      \* covariance: KroneckerProduct(latent covariance, a a^T).sum(latent_dim)
+      ckron == [o \in 1..OB |-> [r \in 1..(N * T) |-> [s \in 1..(N * T) |->
+                  SumDim(Ten(LAMBDA b : i.cov[b][nn(r)][nn(s)] * (i.A[b][tt(r)] * i.A[b][tt(s)])), i.ld).vals[o]]]]
+      ckl   == SumDim(Ten(LAMBDA b : kl2base[b]), IF Variant.lmckl = "named" THEN i.ld ELSE -1)
+      \* ---------- code-shaped (IndependentMultitaskVariationalStrategy)
+      ta    == AxisOf(shape, i.td) - 1                                             \* task dimension, python position
+      \* all tasks: MultitaskMultivariateNormal.from_batch_mvn moves the task dimension behind the data dimension
+      mten  == [shape |-> shape \o <<N>>, vals |-> [f \in 1..(B * N) |-> i.mean[((f - 1) \div N) + 1][((f - 1) % N) + 1]]]
+      cimean == Permute(mten, Range0(0, ta) \o Range0(ta + 1, nb + 1) \o <<ta>>)         \* shape: oshape x N x Q
+      cikl  == SumDim(Ten(LAMBDA b : kl2base[b]), IF Variant.imtkl = "named" THEN i.td ELSE -1)
+      \* one task per input: one-hot mask of shape oshape x N x Q, permuted to the shape of the latent mean, multiplied, summed
+      hot   == [shape |-> oshape \o <<N, Q>>,
+                vals  |-> [f \in 1..(OB * N * Q) |-> IF i.tj[(((f - 1) \div Q) % N) + 1] = ((f - 1) % Q) + 1 THEN 1 ELSE 0]]
+      mask  == Permute(hot, IF Variant.imtmask = "to" THEN Range0(0, ta) \o <<nb>> \o Range0(ta, nb)
+                            ELSE Range0(0, ta) \o Range0(ta + 1, nb + 1) \o <<ta>>)
+      cismean == IF mask.shape # mten.shape THEN [shape |-> <<-1>>, vals |-> <<>>]             \* torch raises: the shapes do not match
+                 ELSE SumDim([shape |-> mten.shape, vals |-> [f \in 1..(B * N) |-> mten.vals[f] * mask.vals[f]]], ta)
+  IN [id |-> i.id, oshape |-> oshape, lmean |-> lmean, lcov |-> lcov, smean |-> smean, scov |-> scov, kl2 |-> kl2,
+      imean |-> imean, icov |-> icov, ismean |-> ismean, iscov |-> iscov,
+      codeOK |-> cmean = lmean /\ ckron = lcov,
+      klOK   |-> ckl.shape = oshape /\ ckl.vals = kl2,
+      iOK    |-> /\ cimean.shape = oshape \o <<N, Q>>
+                 /\ \A o \in 1..OB : \A n \in 1..N : \A t \in 1..Q : cimean.vals[((o - 1) * N + n - 1) * Q + t] = imean[o][n][t],
+      iklOK  |-> cikl.shape = oshape /\ cikl.vals = kl2,
+      iselOK |-> /\ cismean.shape = oshape \o <<N>>
+                 /\ \A o \in 1..OB : \A n \in 1..N : cismean.vals[(o - 1) * N + n] = ismean[o][n],
+      \* selecting one task per input is selecting entries of the all-tasks output
+      selOK |-> \A o \in 1..OB : \A n \in 1..N : \A e \in 1..N :
+                  /\ scov[o][n][e] = lcov[o][(n - 1) * T + i.ti[n]][(e - 1) * T + i.ti[e]]
+                  /\ smean[o][n] = lmean[o][n][i.ti[n]]
+                  /\ iscov[o][n][e] = icov[o][(n - 1) * Q + i.tj[n]][(e - 1) * Q + i.tj[e]]
+                  /\ ismean[o][n] = imean[o][n][i.tj[n]]]
+
+\* the wrappers mix / stack the latent q(f) over the NAMED dimension, for every position of that dimension in the batch shape
+MixOK    == Part = "mix" => out.codeOK /\ out.selOK /\ out.iOK /\ out.iselOK
+\* kl_divergence() is the sum of the per-latent KL over the NAMED dimension: one value per entry of the remaining batch dimensions
+MixKLOK  == Part = "mix" => out.klOK /\ out.iklOK
 
 \* ============================== part "lattice" ================================================
 Strategies == {"VariationalStrategy", "UnwhitenedVariationalStrategy", "BatchDecoupledVariationalStrategy",
@@ -251,12 +340,51 @@ StratInfo(s) ==
     [] s = "GridInterpolationVariationalStrategy"      -> [white |-> "interp", xjit |-> 0, kljit |-> "1e-3", wraps |-> FALSE]
     [] OTHER                                           -> [white |-> "base", xjit |-> 0, kljit |-> "base", wraps |-> TRUE]
 
+\* ---- batch layouts of the multitask wrappers ("which dimension" arguments)
+\* The variational parameters of a wrapped strategy have batch shape  bp \o <<Q>> \o post : the dimension named by latent_dim
+\* (LMC) / task_dim (independent wrapper) is ld = -(Len(post) + 1); every valid position -1, -2, -3 is a cell.  Sizes: Q in {2, 3};
+\* a "pre" dimension (bp) has size 2, so it is EQUAL to Q for Q = 2 and different for Q = 3; a "post" dimension is "eq" (size Q:
+\* reducing over the wrong dimension gives the right shape and wrong numbers) or "ne" (size 5 - Q: it gives a wrong shape).
+\* pos: the independent wrapper is given the same dimension as a non-negative index (only where inputs and inducing points add no
+\* batch dimension in front of the parameters' batch shape, which would shift the meaning of a non-negative index).
+Wrappers  == {"LMCVariationalStrategy", "IndependentMultitaskVariationalStrategy"}
+Posts     == {<<>>, <<"eq">>, <<"ne">>, <<"eq", "eq">>, <<"ne", "ne">>}
+NoLayout  == [Q |-> 0, post |-> <<>>, pos |-> FALSE]
+Layouts   == [Q : {2, 3}, post : Posts, pos : BOOLEAN]
+PostSizes(l)  == [k \in 1..Len(l.post) |-> IF l.post[k] = "eq" THEN l.Q ELSE 5 - l.Q]
+LatentDim(l)  == -(Len(l.post) + 1)
+\* shapes the property speaks about: parameters (= q(u) batch), the argument as given, the batch shape of kl_divergence() and of
+\* the output for inputs without batch dimensions
+LayoutInfo(q) ==
+  LET l == q.lay  ps == q.bp \o <<l.Q>> \o PostSizes(l)
+  IN [param |-> ps, ld |-> LatentDim(l), given |-> IF l.pos THEN Len(ps) + LatentDim(l) ELSE LatentDim(l),
+      kl |-> DropAt(ps, AxisOf(ps, LatentDim(l)))]
+
+\* ---- the mean / variance dimension of the batch-decoupled strategy (argument mean_var_batch_dim)
+\* mv = 0: not named (one shared kernel; the strategy stacks its two inducing sets in front of the data dimensions);
+\* mv = -1 / -2: the kernel has batch shape bp with a dimension of size 2 inserted so that it sits at index mv; the same dimension of
+\* the inducing points holds the mean set and the variance set.  mv = -2 needs a parameter batch dimension behind it (bp = <<2>>: the
+\* two dimensions have EQUAL sizes, taking the wrong one keeps every shape) and inputs that spell that dimension out (bx = bp).
+MVDims == {0, -1, -2}
+MVInfo(q) == IF q.mv = 0 THEN [kernel |-> <<>>, mv |-> 0]
+             ELSE [kernel |-> PutAt(q.bp, Len(q.bp) + q.mv + 2, 2), mv |-> q.mv]
+
 \* valid pairs: the batch-decoupled strategy rejects a point mass, the grid strategy needs a covariance and has no batch of grids;
 \* for the orthogonally decoupled strategy the distribution is that of the covariance strategy (the mean part is always a Delta)
 ValidCell(q) ==
   /\ (q.strat = "BatchDecoupledVariationalStrategy" => q.dist # "Delta")
   /\ (q.strat = "GridInterpolationVariationalStrategy" => q.dist # "Delta" /\ q.bz = <<>>)
-Cells == {q \in [strat : Strategies, dist : Dists, bz : BShapes, bp : BShapes, bx : BShapes] : ValidCell(q)}
+  /\ (q.strat # "BatchDecoupledVariationalStrategy" => q.mv = 0)
+  /\ (q.mv = -2 => q.bp = <<2>> /\ q.bx = <<2>>)
+  /\ (q.strat \notin Wrappers => q.lay = NoLayout)
+  /\ (q.strat \in Wrappers =>
+        /\ q.lay \in Layouts
+        /\ (q.bp = <<>> => q.lay.Q = 3)                      \* without a pre dimension Q = 2 / 3 are the same cell
+        /\ (q.lay.pos => q.strat = "IndependentMultitaskVariationalStrategy" /\ q.bx = <<>> /\ (q.bz # <<>> => q.bp # <<>>)))
+Cells == {q \in [strat : Strategies, dist : Dists, bz : BShapes, bp : BShapes, bx : BShapes, lay : Layouts \cup {NoLayout}, mv : MVDims] : ValidCell(q)}
+CellOut(q) == IF q.strat \in Wrappers THEN [info |-> StratInfo(q.strat), layout |-> LayoutInfo(q)]
+              ELSE IF q.strat = "BatchDecoupledVariationalStrategy" THEN [info |-> StratInfo(q.strat), layout |-> MVInfo(q)]
+              ELSE [info |-> StratInfo(q.strat), layout |-> [none |-> TRUE]]
 
 \* ============================== part "hist" ===================================================
 \* c = [ver : version of the parameters, memo : version the memoised q(u) / p(u) were computed from (0: nothing memoised),
@@ -285,7 +413,7 @@ ObservesCurrent == Part = "hist" => \A e \in 1..Len(out) : out[e].sees = out[e].
 Init ==
   CASE Part = "qf"      -> c \in Instances /\ out = Eval(c)
     [] Part = "mix"     -> c \in Instances /\ out = MixEval(c)
-    [] Part = "lattice" -> c \in Cells /\ out = StratInfo(c.strat)
+    [] Part = "lattice" -> c \in Cells /\ out = CellOut(c)
     [] Part = "hist"    -> c = HInit /\ out = <<>>
 
 Next == IF Part = "hist" THEN Forward \/ KL \/ OptStep ELSE UNCHANGED vars
